@@ -1045,7 +1045,12 @@ def check_yybar(optic, tr, cfg, rnd):
             return arr(yy)
         yw = guard(at_w)
         if not iserr(yw) and len(yw) == len(ya) and np.all(np.isfinite(yw)) and \
-                np.max(np.abs(yw - ya)) > 1e-7 * max(1.0, np.max(np.abs(ya))):
+                np.max(np.abs(yw - ya)) <= 1e-7 * max(1.0, np.max(np.abs(ya))):
+            # the marginal heights do not depend on the wavelength here (e.g. the only dispersive element is a
+            # plane-parallel plate) but the chief ray at w may: its abscissae are not fixed by the property
+            mask = np.array([True, True, False, False] * (len(spec) // 4))
+            ck.count('wavelength != primary, marginal ray not dispersive')
+        elif not iserr(yw) and len(yw) == len(ya) and np.all(np.isfinite(yw)):
             # the diagram at w differs from the primary one; the code plots the primary one
             sw = []
             for k in range(2, len(ya)):
